@@ -326,7 +326,7 @@ pub fn run(cfg: &Cfg) -> Result<Outcome, String> {
     let corpus = Corpus::load();
     let stats = run_sharded(cfg, |cx| {
         // (1) arbitrary strings
-        let n = cx.budget(600_000, 30_000_000);
+        let n = cx.budget(4_000_000, 100_000_000);
         let mut seeds: Vec<String> = Vec::new();
         for i in 0..n {
             if seeds.len() < 64 || i % 50 == 0 {
@@ -418,7 +418,7 @@ pub fn run(cfg: &Cfg) -> Result<Outcome, String> {
         }
         cx.count_n("arbitrary_strings", n);
         // (2) attribution
-        let m = cx.budget(6_000, 300_000);
+        let m = cx.budget(40_000, 1_000_000);
         for _ in 0..m {
             let p = match cx.rng.below(4) {
                 0 => gen::castle_case(&mut cx.rng),
